@@ -155,6 +155,21 @@ func TestSim(t *testing.T) {
 	if err := InitPool(); err != nil {
 		die(2, "%v", err)
 	}
+	// The hook must be alive: a trivially stepping query has to report steps.
+	{
+		sc := C20Case{Path: "$.a", Doc: DocSpec{JSON: `{"a":1}`}, Kind: "query", Err: "canceled"}.scenario(nil)
+		w, err := buildWorld(sc)
+		if err != nil {
+			die(2, "%v", err)
+		}
+		var o *Outcome
+		if err := bubble(t, func() { o = w.execOp(sc.Tasks[0].Ops[0], nil, true) }); err != nil {
+			die(2, "%v", err)
+		}
+		if o.Steps < 2 || o.Raw != "[f:1]" {
+			die(2, "harness: step hook self-check failed (steps=%d polls=%d result=%s): /repo built without -tags verif, or the hook line is missing", o.Steps, o.Polls, o.Brief())
+		}
+	}
 	from, to := envU("SIM_FROM", 0), envU("SIM_TO", 0)
 	mode := os.Getenv("SIM_MODE")
 	if mode == "" {
@@ -191,7 +206,7 @@ func TestSim(t *testing.T) {
 			// odd seeds run one generated multi-task scenario.
 			if role == "c20gen" && seed%2 == 0 {
 				c := GeneratedC20Case(seed)
-				progress(fmt.Sprintf("c20gen-case seed=%d", seed))
+				progress("case " + string(c.scenario(&Fault{Model: "poll", K: 1, Err: c.Err}).Marshal()))
 				es := &EnumStats{Stats: sum.Stats}
 				fs, err := EnumerateC20(t, c, 1, es)
 				if err != nil {
@@ -267,7 +282,7 @@ func TestSim(t *testing.T) {
 			if uint64(i)%stride != from {
 				continue
 			}
-			progress(fmt.Sprintf("c20enum case=%d", i))
+			progress("case " + string(c.scenario(&Fault{Model: "poll", K: 1, Err: c.Err}).Marshal()))
 			every := 1
 			if i >= nCur {
 				every = 97
